@@ -11,6 +11,7 @@ import AfkakProofs.Wire.MsgSetTotal
 import AfkakProps.C05
 import AfkakProps.Open.C04
 import AfkakProofs.Wire.GenEq
+import AfkakProofs.Wire.GenEqCodec
 /-!
 # C04 — every request on the wire conforms to the Kafka protocol grammar
 
@@ -1007,6 +1008,49 @@ theorem C04_generated_write_short_ascii_eq_model (s : Option Bytes) :
 theorem C04_generated_write_short_text_eq_model (s : Option Bytes) :
     genWriteShortText s = writeShortText s := gen_writeShortText s
 
+/-- `KafkaCodec._encode_message_header` (the request envelope of every request) -/
+theorem C04_generated_encode_message_header_eq_model (cid : Bytes) (corr key ver : Int) :
+    genEncodeMessageHeader cid corr key ver = encodeHeader cid corr key ver := gen_encodeHeader cid corr key ver
+
+/-- `KafkaCodec.encode_api_versions_request`; the `ApiVersionRequest` is `(api_key, api_version)` -/
+theorem C04_generated_encode_api_versions_request_eq_model (cid : Bytes) (corr key ver : Int) :
+    genEncodeApiVersionsRequest cid corr (key, ver) = encodeApiVersionsRequest cid corr key ver :=
+  gen_encodeApiVersions cid corr key ver
+
+/-- `KafkaCodec.encode_consumermetadata_request` -/
+theorem C04_generated_encode_consumermetadata_request_eq_model (cid : Bytes) (corr : Int) (g : Option Bytes) :
+    genEncodeConsumermetadataRequest cid corr g = encodeConsumerMetadataRequest cid corr g :=
+  gen_encodeConsumerMetadata cid corr g
+
+/-- `KafkaCodec.encode_leave_group_request`; the payload is `(group, member_id)` -/
+theorem C04_generated_encode_leave_group_request_eq_model (cid : Bytes) (corr : Int) (g m : Option Bytes) :
+    genEncodeLeaveGroupRequest cid corr (g, m) = encodeLeaveGroupRequest cid corr g m :=
+  gen_encodeLeaveGroup cid corr g m
+
+/-- `KafkaCodec.encode_heartbeat_request`; the payload is `(group, generation_id, member_id)` -/
+theorem C04_generated_encode_heartbeat_request_eq_model (cid : Bytes) (corr : Int) (g : Option Bytes) (gen : Int)
+    (m : Option Bytes) :
+    genEncodeHeartbeatRequest cid corr (g, gen, m) = encodeHeartbeatRequest cid corr g gen m :=
+  gen_encodeHeartbeat cid corr g gen m
+
+/-- `KafkaCodec.encode_sync_group_request` including its `for assignment in payload.group_assignment`
+    loop; the payload is `(group, generation_id, member_id, [(member_id, member_metadata)])` -/
+theorem C04_generated_encode_sync_group_request_eq_model (cid : Bytes) (corr : Int) (g : Option Bytes) (gen : Int)
+    (m : Option Bytes) (ga : List (Option Bytes × Option Bytes)) :
+    genEncodeSyncGroupRequest cid corr (g, gen, m, ga) = encodeSyncGroupRequest cid corr g gen m ga :=
+  gen_encodeSyncGroup cid corr g gen m ga
+
+/-- `KafkaCodec.encode_join_group_request` including its `for group_protocol in payload.group_protocols` loop -/
+theorem C04_generated_encode_join_group_request_eq_model (cid : Bytes) (corr : Int) (p : JoinGroupReq) :
+    genEncodeJoinGroupRequest cid corr (p.group, p.sessionTimeout, p.memberId, p.protocolType, p.groupProtocols)
+      = encodeJoinGroupRequest cid corr p := gen_encodeJoinGroup cid corr p
+
+/-- `KafkaCodec.encode_join_group_protocol_metadata` (the consumer protocol's subscription) -/
+theorem C04_generated_encode_join_group_protocol_metadata_eq_model (version : Int) (subs : List (Option Bytes))
+    (ud : Option Bytes) :
+    genEncodeJoinGroupProtocolMetadata version subs ud = encodeJoinGroupProtocolMetadata version subs ud :=
+  gen_encodeJoinGroupProtocolMetadata version subs ud
+
 end Afkak.Props.C04
 
 /- OBLIGATIONS
@@ -1059,6 +1103,14 @@ C04_generated_write_int_string_eq_model
 C04_generated_write_short_bytes_eq_model
 C04_generated_write_short_ascii_eq_model
 C04_generated_write_short_text_eq_model
+C04_generated_encode_message_header_eq_model
+C04_generated_encode_api_versions_request_eq_model
+C04_generated_encode_consumermetadata_request_eq_model
+C04_generated_encode_leave_group_request_eq_model
+C04_generated_encode_heartbeat_request_eq_model
+C04_generated_encode_sync_group_request_eq_model
+C04_generated_encode_join_group_request_eq_model
+C04_generated_encode_join_group_protocol_metadata_eq_model
 -/
 /- OPEN_STATEMENTS
 -/
